@@ -251,7 +251,9 @@ func propInvalidator(c *Case) {
 
 			switch {
 			case eff < 0:
-				c.Assert(nacc == len(group), "acceptance", "negative SkipInterval: %d of %d calls at +%v accepted, want all", nacc, len(group), time.Duration(at-t0.UnixNano()))
+				// nothing has to be skipped; calls that arrive while another one is running may still be
+				// turned away (the statement only constrains what accepted and rejected calls do)
+				c.Assert(nacc >= 1, "acceptance", "negative SkipInterval: none of %d calls at +%v accepted", len(group), time.Duration(at-t0.UnixNano()))
 			case haveLast && time.Duration(at-last) < eff:
 				c.Assert(nacc == 0, "accepted-too-early", "%d call(s) accepted at +%v, only %v after the previous accepted call (SkipInterval %v)", nacc, time.Duration(at-t0.UnixNano()), time.Duration(at-last), eff)
 			default:
